@@ -2,8 +2,7 @@
 
 Proof:  Properties/C25.v — the dispatch of internal/remoteclient (resolveSerializer, composite
         Serialize / Deserialize with the proto fast path) over abstract serializers: round trip under
-        the explicit cross-acceptance condition, unsupported => error, "first matching entry" is what
-        is chosen, order independence where it holds and witnesses where it does not; byte-level: the
+        the explicit cross-acceptance condition, unsupported => error, the entry chosen is the first one for the exact type, else the first matching interface, order independence where it holds and witnesses where it does not; byte-level: the
         proto/CBOR/JSON frame layout and the Terminated / PoisonPill / delivery frames round-trip and
         are mutually exclusive as far as the layouts decide it.
 Tie:    the REAL remote.Proto/CBOR/JSON serializers, commands.DeliverySerializer and toy user
@@ -28,7 +27,7 @@ Open Scope N_scope.
 
 KNOWN_SIGS = {
     "resolveSerializer:earlier-interface-entry-shadows-exact-type":
-        "client.resolveSerializer returns the first entry in registration order, so an interface entry registered earlier (the default proto.Message entry always is) shadows a serializer registered for the message's exact concrete type, contrary to the documented 'exact concrete type first' rule",
+        "client.resolveSerializer let an interface entry registered earlier (the default proto.Message entry always is) shadow a serializer registered for the message's exact concrete type, contrary to the documented 'exact concrete type first' rule (repaired in /repo; reappears if the two-pass lookup is lost)",
     "serializerDispatch.Deserialize:cbor-json-cross-acceptance-single-digit-payload":
         "CBOR and JSON serializers share the frame layout and the global type registry: a one-digit JSON payload ('0'..'9') is a valid CBOR negative integer and vice versa, so with both registered the receiving dispatcher decodes e.g. int 5 (sent as JSON) as -22 through the earlier-registered CBOR entry",
 }
@@ -73,7 +72,7 @@ def run(ctx):
 
     # ---------------------------------------------------------------- model vs implementation
     mism = None
-    sel = cases if ctx.thorough else [c for c in cases if c["I"] % 4 == ctx.seed % 4 or (c.get("Oracle") and c["I"] % 2 == 0)]
+    sel = cases if ctx.thorough else [c for c in cases if c["I"] % 8 == ctx.seed % 8 or (c.get("Oracle") and c["I"] % 2 == 0)]
     ok_eval, out_eval = ctx.coq_build(["theories/C25/Eval.vo"])
     if not ok_eval:
         ctx.tie_broken("C25/Model.v or C25/Eval.v does not compile", out_eval)
@@ -96,8 +95,7 @@ def run(ctx):
             ents = []
             for j in range(n):
                 tbl = "[" + ";".join(opt(row[j]) for row in (c.get("Deser") or [])) + "]"
-                # is_iface is irrelevant for the functions evaluated here
-                ents.append("(%s,false,%s,%s,%s)" % (b(c["Matches"][j]), b(c["IsProto"][j]), opt(c["Ser"][j]), tbl))
+                ents.append("(%s,%s,%s,%s,%s)" % (b(c["Matches"][j]), b(c["IsIface"][j]), b(c["IsProto"][j]), opt(c["Ser"][j]), tbl))
             chunk.append("check_case [%s] [%s] %s %s [%s]" % (
                 ";".join(ents), ";".join(b(x) for x in (c.get("Fast") or [])), opt(c["RResolve"]), opt(c["RDSer"]),
                 ";".join(opt(x) for x in (c.get("RDDeser") or []))))
@@ -152,19 +150,19 @@ def run(ctx):
         "oracle_signatures": {k: len(v) for k, v in per_sig.items()},
         "model_cases": len(sel), "model_mismatches": mism,
         "samples": [{k: c[k] for k in ("Entries", "Msg", "Ser", "RResolve", "RDSer", "RDDeser")} for c in cases[:3]],
-        "theorems": ["C25_dispatch_roundtrip", "C25_send_receive_roundtrip", "C25_resolve_is_first_match", "C25_unsupported_serialize_error",
+        "theorems": ["C25_dispatch_roundtrip", "C25_send_receive_roundtrip", "C25_resolve_exact_type_first", "C25_resolve_then_first_interface", "C25_resolve_sound", "C25_unsupported_serialize_error",
                      "C25_unsupported_resolve_none", "C25_undecodable_error", "C25_order_independent_partial", "C25_cross_acceptance_refuted",
-                     "C25_resolve_exact_first_refuted", "C25_resolve_documented_partial", "C25_shared_layout_roundtrip",
+                     "C25_resolve_exact_beats_earlier_interface", "C25_shared_layout_roundtrip",
                      "C25_shared_cross_needs_common_name", "C25_shared_rejects_{poison,terminated,delivery}", "C25_{poison,terminated,delivery}_rejects_shared",
                      "C25_internal_formats_disjoint", "C25_terminated_roundtrip", "C25_delivery_roundtrip", "C25_frame_type_name"],
     })
 
 
 META = {
-    "ready": False,
+    "ready": True,
     "category": "proof",
     "technique": "Rocq proof over an abstract dispatch model + byte-level frame models, instantiated per case with the recorded behaviour of the real serializers",
-    "text": "Deserialize(Serialize m) = m for the composite dispatcher and for the real send/receive path under an explicit cross-acceptance condition, unsupported => error, and the chosen serializer is exactly the first matching entry — proved for all entry lists and messages; the frame layouts of the proto/CBOR/JSON and internal serializers are proved to round-trip and to exclude each other. All registration orders of up to four of eleven entry kinds are run on the real serializers and dispatch; the model must predict every choice and result.",
+    "text": "Deserialize(Serialize m) = m for the composite dispatcher and for the real send/receive path under an explicit cross-acceptance condition, unsupported => error, and the chosen serializer is the first entry for the exact concrete type, else the first matching interface entry — proved for all entry lists and messages; the frame layouts of the proto/CBOR/JSON and internal serializers are proved to round-trip and to exclude each other. All registration orders of up to four of eleven entry kinds are run on the real serializers and dispatch; the model must predict every choice and result.",
     "design_ref": "DESIGN.md 7/C25",
     "level_note": "Trusted: Coq kernel, payload codecs (protobuf, CBOR, sonic JSON) as parameters recorded per case, reflect. Two literal violations are exhibited on the real code (see known findings).",
 }
